@@ -157,7 +157,8 @@ def main(ctx):
     if pf:
         sub = [cases[i] for i in pf]
         st = [c["term"] for c in sub]
-        excl = "prop_ok_excl_f5" if known_status("F5") else "prop_ok_excl"
+        flags = " ".join("true" if known_status(f) else "false" for f in ("F70", "F73", "F75", "F76", "F78", "F5"))
+        excl = "(prop_ok_excl_k %s)" % flags
         unexplained, _, err = ctx.coq_eval_cases(GROUP, REQ, st, excl, "nohit_F5", shard=150, tag="excl")
         if err:
             raise vf.CheckerBroken("model evaluation failed (excl): %s" % err)
@@ -178,14 +179,10 @@ def main(ctx):
             if j in un:
                 why = "not in any recorded known-finding class"
             else:
-                for fid, (_, ops) in CLASSES.items():
-                    if j in hits.get(fid, ()):
-                        if not known_status(fid):
-                            why = "class %s is not recorded as a known finding" % fid
-                        elif ops is not None and case_op(c) not in ops:
-                            why = "class %s is recorded for %s only" % (fid, sorted(ops))
-                        else:
-                            known_seen.setdefault(fid, c["input"])
+                # explained by prop_ok_excl (which excludes only classes recorded as known): attribute it
+                for fid in CLASSES:
+                    if j in hits.get(fid, ()) and known_status(fid):
+                        known_seen.setdefault(fid, c["input"])
             if why and reported < 3:
                 detail = ctx.coq_eval_show(GROUP, REQ, "show (%s)" % c["term"])
                 ctx.violation({"kind": "property-failure", "check": "infer/execute", "input": c["input"], "coq_case": c["term"],
